@@ -52,7 +52,7 @@ type Sim struct {
 	Now     time.Time
 	Last    *world.BlockResult
 	// Aborted is set when block production failed (panic / error): the run cannot continue.
-	Aborted bool
+	Aborted  bool
 	AbortWhy string
 	// OnRestart is invoked after a node restart (clients resync).
 	OnRestart func()
